@@ -98,6 +98,9 @@ def cases(draw):
         case["earlier_call"] = [draw(st.sampled_from([0, 0.5, 1])), draw(st.sampled_from(["ShEx", "Shacl"]))]
     if inp == "ttl":
         case["ttl_prefixes"] = draw(st.sampled_from(TTL_PREFIXES))
+    elif draw(st.integers(0, 5)) == 0:
+        # class membership comes from a separate instances file; some instances have no triple of their own in the graph file
+        case["split_instances"] = draw(st.lists(st.integers(0, 7), min_size=0, max_size=4))
     return case
 
 
@@ -188,12 +191,19 @@ def enumerate_cases(tier):
 
 
 def check(case):
+    with sut.tmpdir() as split_dir:
+        return _check(case, split_dir)
+
+
+def _check(case, split_dir):
     if "items" in case:
         return check_chain(case)
     if "big" in case["g"]:
         from . import c18
         case = dict(case, g=c18.big_graph(case["g"]["big"]))
     kw, triples = common.base_kwargs(case)
+    if case.get("split_instances") is not None:
+        kw = common.deliver_split(kw, triples, case["g"]["inst_prop"], case["split_instances"], split_dir)
     cfg = case["cfg"]
     if "namespaces_dict" in cfg:
         kw["namespaces_dict"] = dict(cfg["namespaces_dict"])
@@ -216,6 +226,8 @@ def check(case):
     labels = {"shexc" if fmt == "ShEx" else "shacl"}
     if case.get("earlier_call"):
         labels.add("second-call-on-same-shaper")
+    if case.get("split_instances") is not None:
+        labels.add("instances-from-separate-file")
     sel = common.selection(case, triples)
     label_of = common.labels_for(sel, cfg.get("shapes_namespace", refmodel.SHAPES_NS))
     dup_local = len(set(label_of.values())) != len(label_of)
